@@ -914,11 +914,59 @@ pub fn equality_positions<S: ShortGroupSignatureScheme + 'static>(em: &mut Emitt
     }
 }
 
+/// The verifier's schema discloses a claim *and* references it in an equality statement. A disclosed claim has no hidden
+/// response, so nothing can link it to the other references: the verifier must refuse, whatever the holder sends. The
+/// deviating holder (unequal values) runs the real prover without the equality statement under the verifier's
+/// transcript and attaches an (empty) equality proof.
+fn equality_with_disclosed_reference<S: ShortGroupSignatureScheme + 'static>(em: &mut Emitter, rng: &mut Rng, suite: &str) {
+    for (case, n_creds) in [("one-disclosed-one-hidden", 2usize), ("one-disclosed-two-hidden-equal", 3)] {
+        let mut mix = Mix { n_creds, n_claims: 4, age: 30, equality: true, ..Default::default() };
+        mix.disclosed = (0..n_creds).map(|c| if c == 0 { vec!["name".to_string()] } else { vec![] }).collect();
+        // Scn makes the names equal under `equality`; give credential 0 another one
+        let mut scn = Scn::<S>::build(rng, &mix);
+        let mut c0 = scn.bundles[0].credential.claims.clone();
+        c0[0] = RevocationClaim::from(format!("eq-disc-{}", rng.below(1 << 20))).into();
+        c0[1] = HashedClaim::from("Somebody Else").into();
+        let b = match scn.issuers[0].sign_credential(&c0) {
+            Ok(b) => b,
+            Err(_) => continue,
+        };
+        scn.credentials.insert(scn.sig_ids[0].clone(), b.credential.clone().into());
+        scn.bundles[0] = b;
+        let verifier_schema = scn.schema.clone();
+        // prover: same statements without the equality over everything; the hidden references keep an equality among themselves
+        let mut pst: Vec<Statements<S>> = verifier_schema.statements.values().filter(|s| !matches!(s, Statements::Equality(_))).cloned().collect();
+        if n_creds > 2 {
+            let mut m = IndexMap::new();
+            for c in 1..n_creds {
+                m.insert(scn.sig_ids[c].clone(), 1usize);
+            }
+            pst.push(EqualityStatement { id: "eq0".into(), ref_id_claim_index: m }.into());
+        }
+        let prover_schema = PresentationSchema::new_with_id(&pst, &verifier_schema.id);
+        em.oracle_case(&format!("{} equality-with-disclosed-reference {}", suite, case));
+        match steered_create(&scn.credentials, &prover_schema, &verifier_schema, &scn.nonce, None) {
+            Out::Ok(p) => {
+                let mut v = serde_json::to_value(&p).unwrap();
+                if v["proofs"]["eq0"].is_null() {
+                    v["proofs"]["eq0"] = json!({"Equality": {"id": "eq0"}});
+                }
+                match pres_from_value::<S>(&v) {
+                    Out::Ok(q) => judge(em, "c09", suite, &format!("equality-with-disclosed-reference:{}", case), &scn, &q, "disclosed value differs from the hidden ones"),
+                    _ => em.count("equality-with-disclosed-reference:undecodable"),
+                }
+            }
+            _ => em.count("equality-with-disclosed-reference:steering-failed"),
+        }
+    }
+}
+
 pub fn gen_c09(em: &mut Emitter, rng: &mut Rng) {
     em.rule = "2..3 credentials from different issuers, equality over a hashed / number / scalar claim position, equal and unequal values (incl. scalars \
                differing only above bit 64), with and without a commitment on the same claim: honest runs (accepted iff equal); deviating holder with \
                unequal values proves everything else with independent nonces under the verifier's challenge (steered prover) and attaches the equality \
-               proof, copies responses between proofs, re-fixes the challenge; equality proof removed / stored under another id; partially equal layouts over 3..4 credentials (a,a,b … a,b,b,a, a,a,b,c) with per-group shared blinding".into();
+               proof, copies responses between proofs, re-fixes the challenge; equality proof removed / stored under another id; partially equal layouts over 3..4 credentials (a,a,b … a,b,b,a, a,a,b,c) with per-group shared blinding; \
+               an equality statement one of whose references is also disclosed (with another value): never accepted".into();
     c09_suite::<Bbs>(em, rng, "bbs");
     c09_suite::<Ps>(em, rng, "ps");
     // unit indices after those used by the suites
@@ -932,10 +980,12 @@ pub fn gen_c09(em: &mut Emitter, rng: &mut Rng) {
     if em.mine(base + 2) {
         c09_representations::<Bbs>(em, &mut rng.sub(9005), "bbs", "c09");
         equality_positions::<Bbs>(em, &mut rng.sub(9007), "bbs", "c09");
+        equality_with_disclosed_reference::<Bbs>(em, &mut rng.sub(9009), "bbs");
     }
     if em.mine(base + 3) {
         c09_representations::<Ps>(em, &mut rng.sub(9006), "ps", "c09");
         equality_positions::<Ps>(em, &mut rng.sub(9008), "ps", "c09");
+        equality_with_disclosed_reference::<Ps>(em, &mut rng.sub(9010), "ps");
     }
     // completeness half: honest holders with identical values under overlapping / bridging equality statements
     crate::c03::equality_graphs::<Bbs>(em, &mut rng.sub(9003), "bbs");
